@@ -82,6 +82,8 @@ def main(argv=None):
     ap.add_argument('--no-evidence', action='store_true')
     ap.add_argument('--dump', default=None, help='write every run digest to this file (selftests)')
     ap.add_argument('--no-shrink', action='store_true')
+    ap.add_argument('--sweep', type=int, default=None,
+                    help='number of deterministic sweep cases to run (default: 600 quick / all thorough)')
     ap.add_argument('--reverse', action='store_true',
                     help='selftest: execute the runs of each block in reverse order')
     ap.add_argument('--hashseed-offset', type=int, default=0,
@@ -117,7 +119,7 @@ def main(argv=None):
     t0 = time.time()
     mod, clsname, block, nquick, nthorough = registry.REGISTRY[prop]
     nruns = a.runs if a.runs is not None else (nquick if tier == 'quick' else nthorough)
-    budget = a.budget_s if a.budget_s is not None else (100.0 if tier == 'quick' else 1500.0)
+    budget = a.budget_s if a.budget_s is not None else (100.0 if tier == 'quick' else 3600.0)
     known = load_known(prop)
     known_keys = [(c, k) for c, k, _ in known]
     replay_dir = os.path.join(VERIF, 'replays')
@@ -144,7 +146,16 @@ def main(argv=None):
             harness.append('regression %s: %s' % (path, rec['msg']))
 
     # 2. seeded exploration
-    blocks = [(s, min(s + block, nruns)) for s in range(0, nruns, block)]
+    blocks = [('explore', s, min(s + block, nruns)) for s in range(0, nruns, block)]
+    # deterministic sweep of the machine's bounded op-sequence space (a prefix in the quick tier)
+    cls = registry.machine_for(prop)
+    sweep_total = cls.sweep_size(tier)
+    sweep_n = sweep_total if tier == 'thorough' else min(sweep_total, a.sweep if a.sweep
+                                                         is not None else 600)
+    if a.sweep is not None:
+        sweep_n = min(sweep_total, a.sweep)
+    sblock = max(block, 256)
+    blocks += [('sweep', s, min(s + sblock, sweep_n)) for s in range(0, sweep_n, sblock)]
     q = queue.Queue()
     for b in blocks:
         q.put(b)
@@ -153,19 +164,20 @@ def main(argv=None):
            'fault_free_runs': 0, 'faults': collections.Counter(), 'stats': collections.Counter(),
            'probes': collections.Counter(), 'steps_by_class': collections.Counter(),
            'samples': [], 'outcomes': collections.Counter(), 'digests': {}, 'blocks_done': 0,
-           'max_steps_run': 0, 'nontrivial_runs': 0, 'violating_runs_fault_free': 0}
+           'max_steps_run': 0, 'nontrivial_runs': 0, 'violating_runs_fault_free': 0,
+           'sweep_runs': 0}
     stop = threading.Event()
 
     def work():
         while not stop.is_set():
             try:
-                s, e = q.get_nowait()
+                mode, s, e = q.get_nowait()
             except queue.Empty:
                 return
             if time.time() - t0 > budget:
                 return
-            bi = s // block
-            job = {'mode': 'explore', 'prop': prop, 'master': master, 'tier': tier, 'start': s,
+            bi = s // block if mode == 'explore' else 10 ** 6 + s // sblock
+            job = {'mode': mode, 'prop': prop, 'master': master, 'tier': tier, 'start': s,
                    'end': e, 'known': known_keys, 'replay_dir': replay_dir,
                    'shrink': not a.no_shrink, 'watchdog_s': 1200, 'reverse': a.reverse}
             recs, rc, err = run_worker(job, (seeds.block_hashseed(master, prop, bi) +
@@ -175,6 +187,8 @@ def main(argv=None):
                     harness.append('block %d-%d: worker rc=%s: %s' % (s, e, rc, err[-1500:]))
                     continue
                 agg['blocks_done'] += 1
+                if mode == 'sweep':
+                    agg['sweep_runs'] += len(recs) - 1
                 for r in recs[:-1]:
                     agg['runs'] += 1
                     agg['outcomes'][r['outcome']] += 1
@@ -193,7 +207,8 @@ def main(argv=None):
                     agg['probes'].update(r['probes'])
                     agg['steps_by_class'].update(r['steps_by_class'])
                     if a.dump:
-                        agg['digests'][r['i']] = r['digest']
+                        agg['digests'][('s%d' % r['i']) if mode == 'sweep' else r['i']] = \
+                            r['digest']
                     if 'ops' in r and len(agg['samples']) < 3 and r['outcome'] == 'ok' \
                             and r['nontrivial']:
                         agg['samples'].append({'run': r['i'], 'seed': r['seed'],
@@ -248,7 +263,13 @@ def main(argv=None):
                         'distinct = distinct run fingerprints (machine-specific abstraction of '
                         'op kinds, configuration, fault fired and outcome per op) among those',
                 'samples': agg['samples'] or [{'note': 'no clean non-trivial run sampled'}],
-                'runs_planned': nruns, 'runs_executed': agg['runs'],
+                'runs_planned': nruns + sweep_n, 'runs_executed': agg['runs'],
+                'sweep': {'cases_total': sweep_total, 'cases_planned': sweep_n,
+                          'cases_run': agg['sweep_runs'],
+                          'complete': sweep_total > 0 and agg['sweep_runs'] == sweep_total,
+                          'note': 'deterministic enumeration of a bounded op-sequence space '
+                                  '(see the machine); a small deterministic prefix of the search, '
+                                  'it does not raise the claimed level'},
                 'runs_per_hour': int(agg['runs'] / max(wall_explore, 1e-6) * 3600),
                 'ops_executed': agg['ops'],
                 'io_steps_total': agg['io_steps'],
